@@ -39,6 +39,15 @@ def setup():
     return 0 if ok else 1
 
 
+def stable(obs):
+    """an observation without its free text (messages list what the process knows at that moment)"""
+    if isinstance(obs, dict):
+        return {k: stable(v) for k, v in obs.items() if k not in ("msg", "text", "detail", "decl_detail", "dataformat", "interface")}
+    if isinstance(obs, (list, tuple)):
+        return [stable(v) for v in obs]
+    return obs
+
+
 def load_prop(prop):
     return importlib.import_module("props." + prop.lower())
 
@@ -134,7 +143,7 @@ def check(prop, tier, seed):
             first = cases[i]
             again = mod.make_case(first["input"])
             n_rerun += 1
-            if json.dumps(again["obs"], sort_keys=True, default=str) != json.dumps(first["obs"], sort_keys=True, default=str) and id(first) not in flagged:
+            if json.dumps(stable(again["obs"]), sort_keys=True, default=str) != json.dumps(stable(first["obs"]), sort_keys=True, default=str) and id(first) not in flagged:
                 again["input"] = first["input"]
                 again["first_observation"] = first["obs"]
                 msg = (mod.direct_oracle(first["input"], again["obs"]) if hasattr(mod, "direct_oracle") else None) or ""
